@@ -111,8 +111,14 @@ def outline_monitor(ctx, info, res, where="post"):
                                     "auxes": {a: snaps.get(a) for a in sum(info.cond.values(), [])}})
             S = info.S[name]
             hum = S.head_human(trunc[0]) if trunc else S.human(sn["active"])
+            hums = [hum]
+            if trunc:
+                # the statement fixes the *frames*; while cut, the same frames may be rendered relative to the
+                # main frame ("<f0<f1>") or relative to the active frame when that is above the main frame ("<f0>f1")
+                h = S.head(sn["active"])
+                hums.append("<" + "<".join(h) + ">" + ">".join(exp[len(h):]))
             if ok:
-                ctx.check(sn["humanShr"] == hum and sn["activeShr"] == sn["active"], "state-shares-not-outline",
+                ctx.check(sn["humanShr"] in hums and sn["activeShr"] == sn["active"], "state-shares-not-outline",
                           "%s: framer %s state shares human=%r active=%r, expected %r / %r" % (
                               label, name, sn["humanShr"], sn["activeShr"], hum, sn["active"]),
                           lambda: {"where": label, "framer": name, "snapshot": sn})
